@@ -153,6 +153,7 @@ func (c *RunnerCloserManager) Run(ctx context.Context) error {
 	if !c.running.CompareAndSwap(false, true) {
 		return ErrManagerAlreadyStarted
 	}
+	verifPoint("closer.run.afterCAS")
 
 	// Signal the manager is stopped.
 	defer close(c.stopped)
